@@ -19,6 +19,10 @@
 //   - every removal.
 //
 // and a fresh client's GetCached() is compared with the oracle of the property.
+// The fallback is accepted only while no valid cached version exists and none
+// existed in an earlier state of the same update (including the state before it):
+// an update that unlinks the only valid version before the new one is readable
+// loses a validated configuration exactly in the window the property is about.
 package c45
 
 import (
@@ -184,7 +188,7 @@ func genRefresh(t *rapid.T, first bool, version int64, finalRefresh bool) Refres
 func gen(t *rapid.T) Case {
 	c := Case{
 		IntervalS: rapid.SampledFrom([]int{1, 2, 60, 3600, 86400}).Draw(t, "interval"),
-		CacheSize: rapid.SampledFrom([]int{1, 2, 3, 3, 3, 5}).Draw(t, "cachesize"),
+		CacheSize: rapid.SampledFrom([]int{1, 1, 2, 3, 3, 5}).Draw(t, "cachesize"),
 		OffsetMs:  rapid.IntRange(0, 999).Draw(t, "offset"),
 	}
 	n := rapid.IntRange(0, 3).Draw(t, "priors")
@@ -580,8 +584,40 @@ func enumerate(c Case, ob observed, crashRoot string) verdict {
 		return r
 	}
 
+	// independent scan of the current crash directory: cache file names (newest
+	// first) and those of them that hold a fetched config
+	scan := func() (names, valid []string) {
+		for n := range cur {
+			if isCacheFileName(n) {
+				names = append(names, n)
+			}
+		}
+		sort.Sort(sort.Reverse(sort.StringSlice(names)))
+		for _, n := range names {
+			if isValid(cur[n]) {
+				valid = append(valid, n)
+			}
+		}
+		return
+	}
+	// lastValid: the most recent earlier crash state (the state before the update
+	// included) in which a valid cached version was on disk, and what it was. Once
+	// the cache has held a validated version, the update in progress must not take it
+	// away before the replacement is readable: "a later cached read returns a
+	// configuration that was previously fetched and validated".
+	lastValidDesc, lastValidNames := "", []string(nil)
+	if _, valid := scan(); len(valid) > 0 {
+		lastValidDesc, lastValidNames = "at the start of the update", valid
+		v.proto["valid-before-update"] = true
+	}
+
 	check := func(desc string, tornName string, tornInPlace bool) {
 		v.states++
+		names, valid := scan()
+		hadDesc, hadNames := lastValidDesc, lastValidNames
+		if len(valid) > 0 {
+			lastValidDesc, lastValidNames = "in the state \""+desc+"\"", valid
+		}
 		cl, err := autoconf.NewClient(autoconf.WithCacheDir(crashRoot), autoconf.WithURL(testURL))
 		if err != nil {
 			panic(err)
@@ -596,23 +632,18 @@ func enumerate(c Case, ob observed, crashRoot string) verdict {
 		if equalCfg(got, newest) || (prev != nil && equalCfg(got, prev)) {
 			return
 		}
-		// independent scan of the crash directory
-		var names []string
-		for n := range cur {
-			if isCacheFileName(n) {
-				names = append(names, n)
-			}
-		}
-		sort.Sort(sort.Reverse(sort.StringSlice(names)))
-		var valid []string
-		for _, n := range names {
-			if isValid(cur[n]) {
-				valid = append(valid, n)
-			}
-		}
 		if equalCfg(got, fallback) {
 			if len(valid) == 0 {
-				return // nothing valid is cached: the fallback is the specified answer
+				if hadNames == nil {
+					return // nothing valid is or was cached: the fallback is the specified answer
+				}
+				// the update itself removed (or invalidated) every valid cached version
+				// before a replacement became readable
+				if v.fail == nil {
+					v.fail = fmt.Errorf("%s: GetCached returned the built-in fallback: no valid cached version is left, although valid cached version(s) %v existed %s (the interrupted update destroyed them before the new version was readable)", desc, hadNames, hadDesc)
+				}
+				v.proto["valid-version-lost"] = true
+				return
 			}
 			err := fmt.Errorf("%s: GetCached returned the built-in fallback although valid cached version(s) %v exist", desc, valid)
 			// F18: the newest cache file is the one being written in place under its final
@@ -804,7 +835,7 @@ func sample(c Case) any {
 
 var spec = kit.Spec[Case]{
 	Prop: "C45", Name: "main",
-	Rule:  "autoconf client in a synctest bubble with an in-memory RoundTripper: 0..3 successful refreshes (new payload / identical payload / 304), then one more refresh observed with inotify; every crash state of the observed write protocol (every byte truncation of each file written in place with later files in their old state, temp-file truncations and atomic rename steps, removals) is materialised and a fresh client's GetCached() must return the new or the newest earlier fetched config, the fallback only when no valid autoconf-*.json exists; non-trivial = at least one earlier cached version exists and strict truncations were checked",
+	Rule:  "autoconf client in a synctest bubble with an in-memory RoundTripper: 0..3 successful refreshes (new payload / identical payload / 304), then one more refresh observed with inotify; every crash state of the observed write protocol (every byte truncation of each file written in place with later files in their old state, temp-file truncations and atomic rename steps, removals) is materialised and a fresh client's GetCached() must return the new or the newest earlier fetched config, the fallback only when no valid autoconf-*.json exists in the crash state nor existed in any earlier state of the update (the state before the update included: an update must not remove the last valid version before its replacement is readable; cache size 1 is generated with weight 1/3 for this); non-trivial = at least one earlier cached version exists and strict truncations were checked",
 	Quick: 50, Thorough: 200,
 	Gen: gen, Run: run, Sample: sample,
 }
